@@ -13,6 +13,11 @@ val length : 'a1 list -> nat
 
 val app : 'a1 list -> 'a1 list -> 'a1 list
 
+type comparison =
+| Eq
+| Lt
+| Gt
+
 val pred : nat -> nat
 
 val add : nat -> nat -> nat
@@ -33,6 +38,8 @@ val nth : nat -> 'a1 list -> 'a1 -> 'a1
 val rev : 'a1 list -> 'a1 list
 
 val map : ('a1 -> 'a2) -> 'a1 list -> 'a2 list
+
+val flat_map : ('a1 -> 'a2 list) -> 'a1 list -> 'a2 list
 
 val fold_left : ('a1 -> 'a2 -> 'a1) -> 'a2 list -> 'a1 -> 'a1
 
@@ -55,12 +62,81 @@ type n =
 
 module Pos :
  sig
+  type mask =
+  | IsNul
+  | IsPos of positive
+  | IsNeg
+ end
+
+module Coq_Pos :
+ sig
+  val succ : positive -> positive
+
+  val add : positive -> positive -> positive
+
+  val add_carry : positive -> positive -> positive
+
+  val pred_double : positive -> positive
+
+  type mask = Pos.mask =
+  | IsNul
+  | IsPos of positive
+  | IsNeg
+
+  val succ_double_mask : mask -> mask
+
+  val double_mask : mask -> mask
+
+  val double_pred_mask : positive -> mask
+
+  val sub_mask : positive -> positive -> mask
+
+  val sub_mask_carry : positive -> positive -> mask
+
+  val mul : positive -> positive -> positive
+
+  val compare_cont : comparison -> positive -> positive -> comparison
+
+  val compare : positive -> positive -> comparison
+
   val eqb : positive -> positive -> bool
+
+  val iter_op : ('a1 -> 'a1 -> 'a1) -> positive -> 'a1 -> 'a1
+
+  val to_nat : positive -> nat
+
+  val of_succ_nat : nat -> positive
  end
 
 module N :
  sig
+  val succ_double : n -> n
+
+  val double : n -> n
+
+  val add : n -> n -> n
+
+  val sub : n -> n -> n
+
+  val mul : n -> n -> n
+
+  val compare : n -> n -> comparison
+
   val eqb : n -> n -> bool
+
+  val leb : n -> n -> bool
+
+  val pos_div_eucl : positive -> n -> n * n
+
+  val div_eucl : n -> n -> n * n
+
+  val div : n -> n -> n
+
+  val modulo : n -> n -> n
+
+  val to_nat : n -> nat
+
+  val of_nat : nat -> n
  end
 
 type opcode =
@@ -101,6 +177,8 @@ type opcode =
 val all_opcodes : opcode list
 
 val code : opcode -> n
+
+val eND_OF_ITEM : n
 
 val args : opcode -> nat option
 
@@ -358,3 +436,71 @@ val tape_push : nat -> (clause -> keep) -> tape -> tape
 val keep_point : 'a1 ops -> 'a1 list -> clause -> keep
 
 val keep_interval : 'a1 ops -> 'a1 list -> 'a1 list -> clause -> keep
+
+type byte = n
+
+val qUOTE : byte
+
+val bSLASH : byte
+
+val tAG_T : byte
+
+val tAG_t : byte
+
+val esc : byte list -> byte list
+
+val ser_string : byte list -> byte list
+
+val unesc : nat -> byte list -> byte list -> byte list * byte list
+
+val deser_string : byte list -> byte list * byte list
+
+val u32le : n -> byte list
+
+val read_u32 : byte list -> n * byte list
+
+type idmap = (nat * n) list
+
+val id_find : idmap -> nat -> n option
+
+val id_at : idmap -> nat -> n
+
+val ser_node :
+  ('a1 -> n) -> 'a1 arena -> (byte list * idmap) -> nat -> byte list * idmap
+
+val ser_tree :
+  'a1 ops -> ('a1 -> n) -> 'a1 arena -> nat -> (byte list * idmap) -> ('a1
+  arena * nat) * (byte list * idmap)
+
+type shape = { sh_tree : nat; sh_name : byte list; sh_doc : byte list;
+               sh_vars : (nat * byte list) list }
+
+val ser_vars : idmap -> (nat * byte list) list -> byte list
+
+val ser_shape :
+  'a1 ops -> ('a1 -> n) -> 'a1 arena -> (byte list * idmap) -> shape -> 'a1
+  arena * (byte list * idmap)
+
+val serialize :
+  'a1 ops -> ('a1 -> n) -> 'a1 arena -> shape list -> 'a1 arena * byte list
+
+val tget : nat list -> n -> nat
+
+val deser_nodes :
+  'a1 ops -> (n -> 'a1) -> nat -> 'a1 arena -> nat list -> byte list -> ('a1
+  arena * nat list) * byte list
+
+val deser_vars :
+  nat -> nat list -> byte list -> (nat * byte list) list -> (nat * byte list)
+  list * byte list
+
+val deser_shape :
+  'a1 ops -> (n -> 'a1) -> 'a1 arena -> nat list -> byte -> byte list ->
+  (('a1 arena * nat list) * shape) * byte list
+
+val deser_shapes :
+  'a1 ops -> (n -> 'a1) -> nat -> 'a1 arena -> nat list -> byte list -> shape
+  list -> 'a1 arena * shape list
+
+val deserialize :
+  'a1 ops -> (n -> 'a1) -> 'a1 arena -> byte list -> 'a1 arena * shape list
